@@ -65,10 +65,13 @@ DeclLen(f, d) == (IF Loose(f) THEN 1 ELSE 0) + 1 + (IF Len(d.rels) > 0 THEN 1 + 
 \* f.lure: the body of every condition begins with a line that reads like the header of the condition declared next (CEL text is not
 \* checked by the DSL parser): it looks like a declaration, it is none
 Lure(f) == "lure" \in DOMAIN f /\ f.lure
+\* f.brace: the body of every condition holds an opening brace inside a string literal (the body ends at the first `}`, there is no nesting)
+Brace(f) == "brace" \in DOMAIN f /\ f.brace
 CondText(f, c, k, next) == (IF Loose(f) THEN Eol(f) ELSE "") \o "condition" \o Gap(f) \o c \o (IF Loose(f) THEN " (x: int) {" ELSE "(x: int) {") \o Eol(f)
                            \o (IF Lure(f) THEN "  condition " \o next \o " (x) ||" \o Eol(f) ELSE "")
+                           \o (IF Brace(f) THEN "  \"{\" != \"\" &&" \o Eol(f) ELSE "")
                            \o "  x < " \o ToString(k) \o Eol(f) \o "}" \o Eol(f)
-CondLen(f) == (IF Loose(f) THEN 4 ELSE 3) + (IF Lure(f) THEN 1 ELSE 0)
+CondLen(f) == (IF Loose(f) THEN 4 ELSE 3) + (IF Lure(f) THEN 1 ELSE 0) + (IF Brace(f) THEN 1 ELSE 0)
 RECURSIVE DeclsText(_, _, _, _)
 DeclsText(f, ds, i, k) == IF i > Len(ds) THEN "" ELSE DeclText(f, ds[i], k) \o DeclsText(f, ds, i + 1, k)
 RECURSIVE CondsText(_, _, _, _)
